@@ -88,10 +88,18 @@ func (c17) Gen(rng *simrt.Rand, seed uint64, tier string) *Case {
 		maxRows = 110
 	}
 	n := 5 + rng.Intn(maxRows-4)
-	var ops []Op
+	var ops, ops2 []Op
 	sleepP := []float64{0, 0.05, 0.3}[rng.Intn(3)]
+	// two producers, each owning the groups of one parity (a group's arrival order is its owner's
+	// emission order), with an input buffer that grows while they emit
+	twoProd := len(tuples) >= 2 && rng.Bool(0.2)
 	for i := 0; i < n; i++ {
-		tup := tuples[rng.Intn(len(tuples))]
+		ti := rng.Intn(len(tuples))
+		tup := tuples[ti]
+		dst := &ops
+		if twoProd && ti%2 == 1 {
+			dst = &ops2
+		}
 		row := Row{"id": fmt.Sprintf("r%03d", i), "w": 1 + rng.Intn(9)}
 		if nullW {
 			switch rng.Intn(8) { // NULL / missing inputs of the predicate's own aggregates as well
@@ -115,22 +123,38 @@ func (c17) Gen(rng *simrt.Rand, seed uint64, tier string) *Case {
 			row["v"] = rng.Intn(21) - 5
 		}
 		if rng.Bool(sleepP) {
-			ops = append(ops, Op{K: "sleep", D: int64(time.Duration(1+rng.Intn(2000)) * time.Microsecond)})
+			*dst = append(*dst, Op{K: "sleep", D: int64(time.Duration(1+rng.Intn(2000)) * time.Microsecond)})
 		}
-		ops = append(ops, Op{K: "emit", Row: row, Tag: row["id"].(string)})
+		*dst = append(*dst, Op{K: "emit", Row: row, Tag: row["id"].(string)})
 	}
 	c.Clients = [][]Op{ops}
+	if twoProd {
+		c.Clients = append(c.Clients, ops2)
+	}
 	perf := &PerfSpec{ResultChan: 1 + rng.Intn(4), Workers: 1 + rng.Intn(2), PoolSize: 1 + rng.Intn(3)}
-	if rng.Bool(0.6) {
+	shortTO := rng.Bool(0.12)
+	if shortTO {
+		// block with a timeout shorter than the consumer's stalls: some results are refused
+		perf.Strategy, perf.BlockTimeout = "block", int64([]time.Duration{30 * time.Millisecond, 100 * time.Millisecond}[rng.Intn(2)])
+		perf.DataChan, perf.WindowOut = n+8, 1 // (the input buffer never fills: input rows are not to be dropped)
+	} else if rng.Bool(0.6) {
 		perf.Strategy, perf.BlockTimeout = "block", int64(time.Hour)
 		perf.DataChan, perf.WindowOut = 1+rng.Intn(4), 1+rng.Intn(4)
 	} else {
 		perf.Strategy, perf.DataChan, perf.WindowOut = "drop", n+8, n+8
 	}
+	if twoProd {
+		perf.Strategy, perf.BlockTimeout, perf.DataChan, perf.WindowOut = "expand", 0, 1+rng.Intn(3), n+8
+		perf.Growth, perf.MinInc, perf.Threshold, perf.MaxBuffer = []float64{1.5, 2}[rng.Intn(2)], 1+rng.Intn(2), []float64{0.8, 1.0}[rng.Intn(2)], 4*n+16
+		shortTO = false
+	}
 	sink := SinkSpec{Mode: "sync"}
 	if rng.Bool(0.4) {
 		sink.Fault, sink.Every = "slow", 1+rng.Intn(3)
 		sink.D = int64([]time.Duration{100 * time.Microsecond, 5 * time.Millisecond, 300 * time.Millisecond}[rng.Intn(3)])
+	}
+	if shortTO {
+		sink.Fault, sink.Every, sink.D = "slow", 1+rng.Intn(2), int64(300*time.Millisecond)
 	}
 	c.Insts = []InstSpec{{SQL: fmt.Sprintf("SELECT %s%s FROM stream GROUP BY %sGLOBAL WINDOW TRIGGER WHEN %s", sel, aggs, grp, pred), Perf: perf, Sinks: []SinkSpec{sink}}}
 	c.Policy = genPolicy(rng, []time.Duration{time.Microsecond, time.Millisecond, 100 * time.Millisecond, time.Second}, false)
@@ -236,9 +260,16 @@ func (c17) Run(e *Env) {
 		}
 		prev = len(in.Deliveries)
 	}
-	if st["input_dropped_count"] > 0 || windowDropped(st) > 0 {
+	if st["input_dropped_count"] > 0 {
 		e.R.Discard = "overflow drop: not judged"
 		return
+	}
+	// A result the window could not hand over (block timeout expired on a full output buffer, or
+	// the drop strategy's eviction) is lost as a whole; the group has fired all the same. What is
+	// delivered must then still be the group's fires, in order, with gaps.
+	lossy := windowDropped(st) > 0 || (in.Spec.Perf.Strategy == "drop" && in.Spec.Perf.WindowOut < len(allOpsOf(e.C)))
+	if lossy {
+		e.Probe("lossy_window_output")
 	}
 	// reference: per group, running rows since the last fire
 	byID := map[string]map[string]any{}
@@ -246,7 +277,11 @@ func (c17) Run(e *Env) {
 	expected := map[string][][]string{} // group -> list of id lists (one per fire)
 	var order []string
 	fires := 0
-	for _, op := range e.C.Clients[0] {
+	var allOps []Op // producers own disjoint groups: per group, concatenation preserves arrival order
+	for _, cl := range e.C.Clients {
+		allOps = append(allOps, cl...)
+	}
+	for _, op := range allOps {
 		if op.K != "emit" {
 			continue
 		}
@@ -293,7 +328,15 @@ func (c17) Run(e *Env) {
 				continue
 			}
 			i := got[g]
-			got[g]++
+			if lossy { // skip the fires whose results were lost
+				for j := i; j < len(exp); j++ {
+					if fmt.Sprint(r.IDs) == fmt.Sprint(exp[j]) {
+						i = j
+						break
+					}
+				}
+			}
+			got[g] = i + 1
 			if i >= len(exp) {
 				e.Violate("C17/fired-while-predicate-false", "", "group %s: result #%d delivered (rows %s) but the predicate holds only %d times for that group", g, i+1, idList(r.IDs), len(exp))
 				continue
@@ -325,7 +368,7 @@ func (c17) Run(e *Env) {
 	}
 	for _, g := range order {
 		e.Oblig(1)
-		if got[g] < len(expected[g]) {
+		if got[g] < len(expected[g]) && !lossy {
 			e.Violate("C17/missing-fire", "", "group %s: the predicate held %d times, only %d results were delivered at quiescence", g, len(expected[g]), got[g])
 		}
 		if len(running[g]) > 0 {
@@ -364,4 +407,12 @@ func checkAggsPartial(r *WinResult, byID map[string]map[string]any) string {
 	}
 	cp.Row = row
 	return checkAggs(&cp, byID)
+}
+
+func allOpsOf(c *Case) []Op {
+	var out []Op
+	for _, cl := range c.Clients {
+		out = append(out, cl...)
+	}
+	return out
 }
